@@ -109,7 +109,11 @@ class SuperNet(DNAS):
         :rtype: nn.Module
         """
         model = self.seed
+        # `convert` forces `eval()` on the seed: restore the training status afterwards
+        training_status = {m: m.training for m in self.seed.modules()}
         model, _, _ = convert(model, self._input_example, 'export')
+        for m, status in training_status.items():
+            m.training = status
         return model
 
     def summary(self) -> Dict[str, Dict[str, Any]]:
